@@ -210,6 +210,16 @@ Verdict(e) ==
   IF e.event = "reprint" THEN [c12 |-> OkV, c13 |-> OkV, c14 |-> OkV, c07 |-> OkV, c15 |-> C15Reprint(e)]
   ELSE IF e.event = "call" /\ "merged" \in DOMAIN e
   THEN [c12 |-> C12Merged(e), c13 |-> OkV, c14 |-> OkV, c07 |-> OkV]
+  \* a BURST: a call that was made without looking at the document in between, then the recorded call - whatever the
+  \* implementation left pending after the first (a renumbering, say) is still pending when the second runs.  Only the
+  \* state after both is judged: tree invariants and views (C12), order keys (C14).
+  ELSE IF e.event = "call" /\ "burst" \in DOMAIN e
+  THEN LET sanePost == Sane(e.post)
+           cpPost   == IF sanePost THEN ChildPairs(P, St(e.post)) ELSE {}
+           apPost   == IF sanePost THEN AttrPairs(P, St(e.post)) ELSE {}
+           parPost  == PairFn(P, cpPost)
+           postTree == sanePost /\ TreeInvX(P, St(e.post), cpPost, apPost, parPost)
+       IN  [c12 |-> C12Verdict(e, postTree, parPost), c13 |-> OkV, c14 |-> C14Verdict(e, postTree), c07 |-> OkV]
   ELSE IF e.event = "call"
   THEN LET same     == e.pre = e.post
            sanePost == Sane(e.post)
